@@ -25,7 +25,7 @@ Next == /\ l <= Len(Traces[tid].steps)
         /\ LET tr == Traces[tid]  s == tr.steps[l]  v == StepVerdict(tr, s, lids, mode, stale) IN
              /\ bad' = bad \cup {<<l, c>> : c \in v}
              /\ lids' = IF s.op = "tokenize" /\ s.lid # 0 THEN lids \cup {s.lid} ELSE lids
-             /\ cached' = IF s.op = "clear" THEN {} ELSE IF s.op \in {"parse", "tokenize"} THEN cached \cup {s.t} ELSE cached
+             /\ cached' = IF s.op = "clear" THEN {} ELSE IF s.op \in {"parse", "tokenize", "deepcall"} THEN cached \cup {s.t} ELSE cached
              /\ mode' = IF s.op = "config" THEN s.m ELSE mode
              /\ stale' = IF s.op = "clear" THEN {} ELSE IF s.op = "config" /\ s.m # mode THEN stale \cup cached ELSE stale
         /\ l' = l + 1 /\ UNCHANGED tid
